@@ -6,6 +6,7 @@ import (
 	"bytes"
 	"context"
 	"crypto/sha256"
+	"errors"
 	"fmt"
 	"io"
 	"net/http"
@@ -61,6 +62,8 @@ type key struct {
 func sha(b []byte) digest.Digest { return digest.Digest(fmt.Sprintf("sha256:%x", sha256.Sum256(b))) }
 
 var tags = []string{"latest", "v1", "list"}
+
+var errSource = errors.New("the content source failed")
 
 func run(s Script, v *vt.V) {
 	ctx := context.Background()
@@ -154,8 +157,22 @@ func run(s Script, v *vt.V) {
 					content = iotest.OneByteReader(bytes.NewReader(data))
 				case 5:
 					content = iotest.DataErrReader(bytes.NewReader(data))
+				case 6:
+					// the content source fails at once: whatever is declared, the push fails
+					content = iotest.ErrReader(errSource)
+				case 7:
+					// the content source delivers everything and fails instead of ending
+					content = io.MultiReader(bytes.NewReader(data), iotest.ErrReader(errSource))
 				}
 				_, perr = reg.PushBlob(ctx, repo, decl, content)
+				if st.Reader == 6 || st.Reader == 7 {
+					v.Class("push:failing-reader")
+					if perr == nil {
+						fail(i, st, "failing-reader-accepted", "PushBlob (declared %v/%d) reported success although its content reader failed (after %d bytes)", decl.Digest, decl.Size, map[int]int{6: 0, 7: len(data)}[st.Reader])
+						return
+					}
+					continue
+				}
 				if reused != nil {
 					// the buffer is the caller's again: it is refilled with something else
 					reused.Reset()
@@ -605,7 +622,7 @@ func genScript(t *rapid.T) Script {
 			}
 			switch st.Path {
 			case "pushBlob":
-				st.Reader = rapid.SampledFrom([]int{0, 0, 1, 2, 2, 3, 4, 5}).Draw(t, "reader")
+				st.Reader = rapid.SampledFrom([]int{0, 0, 1, 2, 2, 3, 4, 5, 6, 7}).Draw(t, "reader")
 			case "chunked":
 				for j := rapid.IntRange(0, 3).Draw(t, "nparts"); j > 0; j-- {
 					st.Parts = append(st.Parts, rapid.SampledFrom([]int{0, 1, 2, 100, 8191, 8192, 8193, 20000}).Draw(t, "part"))
@@ -646,7 +663,7 @@ func genScript(t *rapid.T) Script {
 var propHist = &vt.Prop[Script]{
 	ID:   "C01",
 	Name: "IntegrityHistories",
-	Rule: "stack drawn from the grammar S ::= mem | http(S,opts) | debug(S) | select(S) | sub(S,prefix) | unify(S,mem) (depth <= 4, <= 2 hops); history of <= 25 steps over 3 repositories and 4 distinct contents (lengths 0,1,2,3, around 8 KiB, 40000, in one history of 25 one content of 4 MiB-1 .. 5 MiB; thorough also around 64 KiB / 128 KiB / 300000; NUL/0xFF/UTF-8 fragments): pushes by PushBlob (from a bytes.Reader, a reader of unknown length, a strings.Reader, a bytes.Buffer that the caller refills afterwards, one byte per Read, data delivered together with EOF), chunked writer (generated partition), raw single-POST, mount, PushManifest by tag/digest, raw manifest PUT, each truthful or with a declared digest of other content / size +-1; deletes; complete reads (GetBlob/GetManifest/GetTag/Resolve*) and GetBlobRange(o0,o1) with o0,o1 in {-1,0,1,2,len-1,len,len+1,len/2,...}; oracle = independent map (repo,digest)->bytes and own sha256: exact bytes, digest, size; range = exact slice + whole-blob descriptor, non-empty in-bounds ranges must succeed; refused pushes leave nothing retrievable; non-trivial = a push/read/range of >= 1 byte through >= 1 wrapper or hop, or a mismatching push; distinct = (stack shape, set of (push path | read kind, length class | range class))",
+	Rule: "stack drawn from the grammar S ::= mem | http(S,opts) | debug(S) | select(S) | sub(S,prefix) | unify(S,mem) (depth <= 4, <= 2 hops); history of <= 25 steps over 3 repositories and 4 distinct contents (lengths 0,1,2,3, around 8 KiB, 40000, in one history of 25 one content of 4 MiB-1 .. 5 MiB; thorough also around 64 KiB / 128 KiB / 300000; NUL/0xFF/UTF-8 fragments): pushes by PushBlob (from a bytes.Reader, a reader of unknown length, a strings.Reader, a bytes.Buffer that the caller refills afterwards, one byte per Read, data delivered together with EOF, a source that fails at once or instead of ending: the push fails), chunked writer (generated partition), raw single-POST, mount, PushManifest by tag/digest, raw manifest PUT, each truthful or with a declared digest of other content / size +-1; deletes; complete reads (GetBlob/GetManifest/GetTag/Resolve*) and GetBlobRange(o0,o1) with o0,o1 in {-1,0,1,2,len-1,len,len+1,len/2,...}; oracle = independent map (repo,digest)->bytes and own sha256: exact bytes, digest, size; range = exact slice + whole-blob descriptor, non-empty in-bounds ranges must succeed; refused pushes leave nothing retrievable; non-trivial = a push/read/range of >= 1 byte through >= 1 wrapper or hop, or a mismatching push; distinct = (stack shape, set of (push path | read kind, length class | range class))",
 	Gen:  genScript,
 	Run:  run,
 }
